@@ -11,6 +11,12 @@ use ciphercore_base::data_values::Value;
 pub type CaseGen = dyn Fn(&mut Rng) -> Option<Case> + Sync;
 
 pub fn general_case(rng: &mut Rng) -> Option<Case> {
+    // one case in four is a small program aimed at a single protocol (conversions, OT, gemm, postponed resharing)
+    if rng.chance(1, 4) {
+        if let Some(c) = crate::gen::protocol_case(rng) {
+            return Some(c);
+        }
+    }
     let cfg = GenCfg::swarm(rng);
     gen_case(&cfg, rng)
 }
@@ -507,6 +513,29 @@ pub fn replay_cmd(args: &Args, path: &str) -> i32 {
     };
     if args.extra.iter().any(|x| x == "--dump") {
         dump_replay(&rp);
+    }
+    if let Some(pos) = args.extra.iter().position(|x| x == "--sweep") {
+        // development aid: re-run the replayed case in the repository's local run under many evaluator seeds
+        let n: u64 = args.extra.get(pos + 1).and_then(|x| x.parse().ok()).unwrap_or(1000);
+        if let CompileOutcome::Ok(c) = compile_case(&rp.case) {
+            if let Ok(refv) = reference(&c, &rp.case.inputs) {
+                let mut bad = 0;
+                for s in 0..n {
+                    if let Ok(ins) = global_inputs(&rp.case, &c, s) {
+                        match global_run(&c, ins, s.wrapping_mul(0x9E37_79B9) + 1) {
+                            Ok(v) => {
+                                if check_global_output(&rp.case, &c, &v, &refv).is_some() {
+                                    bad += 1;
+                                }
+                            }
+                            Err(_) => bad += 1,
+                        }
+                    }
+                }
+                println!("sweep: {} of {} evaluator seeds give a wrong result", bad, n);
+            }
+        }
+        return 0;
     }
     match replay_tri(&rp) {
         Ok(Some(v)) => {
